@@ -80,6 +80,35 @@ def ui_real_check(chk, ui, table_ok):
             {"kind": "ui", "what": "command", "topic": topic, "payload": c["payload"], "item": c["item"], "how": "./check C14 --replay <this file>",
              "explains": ["Poupool.C15Ui.C15c_ui_commands_accepted", "build:Poupool.Properties.C15Ui"]},
         )
+    # the same widgets used the way people use them: the same button twice in a row, back and forth between two values, on ONE
+    # dispatcher instance — what a command does must not depend on what was sent before (only restore-only status topics are
+    # once-only, and no widget sends those)
+    fresh = {(m[0], m[1]["payload"]): r for m, r in zip(meta, real) if m is not None}
+    log = []
+    d, _ = T.new_dispatcher(mod, log)
+    hist_cases, hist_bad = 0, None
+    for topic, cmds in ui["uiCommands"].items():
+        seq = []
+        prev = None
+        for c in cmds:
+            seq += [c, c] + ([prev, c] if prev is not None else [])
+            prev = c
+        sent = []
+        for c in seq:
+            pl = c["payload"].encode("utf-8")
+            r = c14.real_dispatch(d, log, topic, pl)
+            sent.append(c["payload"])
+            hist_cases += 1
+            want = fresh.get((topic, c["payload"]))
+            if want is not None and want.startswith("tell ") and r != want and hist_bad is None:
+                hist_bad = (topic, c, list(sent), r, want)
+    chk.correspondence("UI commands on one dispatcher instance (every value twice in a row and back and forth): same effect as on a fresh one", hist_cases, 0 if hist_bad is None else 1,
+                       detail=None if hist_bad is None else {"topic": hist_bad[0], "sequence": hist_bad[2][-6:], "got": hist_bad[3], "fresh": hist_bad[4]})
+    if hist_bad is not None:
+        topic, c, sent, r, want = hist_bad
+        chk.violation(f"ui-command-rejected-after-history:{topic}",
+                      f"the sitemap widget of item {c['item']} sends {c['payload']!r} on {topic} after {sent[-4:-1]!r}: the dispatcher does `{r}` instead of `{want}` (the command is accepted only when nothing, or something else, was sent before)",
+                      {"kind": "ui-history", "topic": topic, "sequence": sent, "got": r, "fresh": want})
     n = len(real) // 2
     dist = {"ui_commands": n, "topics": len(ui["uiCommands"]), "told_by_real_dispatcher": sum(1 for r in real if r.startswith("tell ")),
             "command_topics": len(ui["commandTopics"]), "widgets": ui["widgets"]}
@@ -181,7 +210,24 @@ def run_ui(chk):
     return ui
 
 
+def replay_history(rp):
+    from checks import c14
+    from translate import dispatch_table as T
+
+    _quiet()
+    mod = T.import_dispatcher()
+    log = []
+    d, _ = T.new_dispatcher(mod, log)
+    last = None
+    for pl in rp["sequence"]:
+        last = c14.real_dispatch(d, log, rp["topic"], pl.encode("utf-8"))
+        print(f"{rp['topic']} {pl!r} -> {last}")
+    return 1 if last != rp["fresh"] else 0
+
+
 def replay(rp):
+    if rp.get("kind") == "ui-history":
+        return replay_history(rp)
     _quiet()
     os.chdir(REPO)
     if REPO not in sys.path:
